@@ -7,7 +7,7 @@ import numpy as np
 import gen
 from core import fr, w_rat, w_rats, w_bool, p_ints, cmp_exact, call_impl
 
-RULE = ("exhaustive: every sequence over {-2..2} up to length 7 (quick) / 8 (thorough) and over {-3..3} up to length 5 / 6; "
+RULE = ("exhaustive: every sequence over {-2..2} up to length 6 (quick) / 8 (thorough) and over {-3..3} up to length 4 / 6; "
         "random series with >= 3 distinct levels per excursion up to length 5000; keep_adj_zeros in {T,F}; tol in {0, 1/2, 3/2, 1}. "
         "Index outputs compared exactly. distinct = hash of the series; non-trivial = length >= 3 and not constant")
 TIE = "correspondence (hand model Model/Switched.lean on top of Model/Peaks.lean; exhaustive over small alphabets)"
@@ -79,7 +79,7 @@ def run(ctx):
     from eqsig.fns import peaks_and_crossings as pc
     rng = ctx.rng
     if ctx.tier == 'quick':
-        spaces = [(range(-2, 3), 7), (range(-3, 4), 5)]
+        spaces = [(range(-2, 3), 6), (range(-3, 4), 4)]
         n_random, maxlen_r = 300, 600
     else:
         spaces = [(range(-2, 3), 8), (range(-3, 4), 6)]
